@@ -26,6 +26,8 @@ META = re.compile(r"[<>&\"']")
 EDGE_CHARS = ["\x01", "\x0b", "\x1f", "\ufffe", "\uffff", "\x00", "\x08", "\x0c"]
 EDGE_HEADERS = ["bind::1x", "bind::a b", "body::", "body::x y", "instance::9", "bind::foo:bar", "body::zz:q", "instance::nope:x", "bind::a:b:c"]
 EDGE_SETTINGS = ["attribute::", "attribute::p:q", "attribute::1a", "attribute::a b", "attribute::und:x"]
+EDGE_NAMESPACES = ["foo=", 'foo=""', 'ok="http://ok.example" bad=', "=http://x", 'a="http://a" a="http://b"']
+EDGE_NAMES = ["foo:q1", "und:x", "odk:q", "jr:n", "a:b"]
 
 
 @st.composite
@@ -37,13 +39,24 @@ def _cases(draw):
     if g.p("_", 0.08):
         # edge probes: inputs a user can type that XML cannot carry as they are; the outcome must be a well-formed result or a rejection
         qs = [n for n, _ in model.walk(form["nodes"]) if n["k"] == "q" and n["c"].get("type", "").split(" ")[0] in ("text", "integer", "note", "select_one")]
-        kind = g.pick(["char", "header", "setting"])
+        kind = g.pick(["char", "header", "setting", "namespaces", "name"])
         if kind == "char" and qs:
             n = g.pick(qs)
             cols = [k for k in n["c"] if k.split("::")[0] in ("label", "hint", "constraint_message", "default")] or ["label"]
             col = g.pick(cols)
             n["c"][col] = (n["c"].get(col) or "t") + g.pick(EDGE_CHARS) + "z"
             edge = "illegal-char"
+        elif kind == "namespaces":
+            form.setdefault("settings", {})["namespaces"] = g.pick(EDGE_NAMESPACES)
+            edge = "namespaces-setting"
+        elif kind == "name" and qs:
+            n = g.pick(qs)
+            if not common.all_strings and False:
+                pass
+            old = n["c"]["name"]
+            if not any(("${%s}" % old) in s_ or ("#%s}" % old) in s_ for s_ in common.all_strings(form)):
+                n["c"]["name"] = g.pick(EDGE_NAMES)
+                edge = "prefixed-name"
         elif kind == "header" and qs:
             g.pick(qs)["c"][g.pick(EDGE_HEADERS)] = "v"
             edge = "attribute-header"
